@@ -153,6 +153,7 @@ func Scalars() []Named {
 		N("error", errors.New("an error")), N("time.Duration", 90*time.Second), N("time.Month", time.March), N("time.Time", time.Date(2021, 3, 4, 5, 6, 7, 0, time.UTC)), N("time.Time zero", time.Time{}),
 		N("*big.Int", big.NewInt(42)), N("big.Float", *big.NewFloat(1.5)), N("url.URL", url.URL{Scheme: "http", Host: "h"}), N("net.IP", net.IP{127, 0, 0, 1}), N("os.FileMode", os.FileMode(0o644)),
 		N("typed nil in iface slice", []interface{}{(*int)(nil)}), N("[2]string", [2]string{"a", "b"}), N("struct{}", struct{}{}), N("*struct{}", &struct{}{}), N("**int", func() **int { i := 3; p := &i; return &p }()),
+		N("embeds Stringer/Number/Boolean holding typed nil pointers", EmbedsIfaces{Stringer: (*ValStringer)(nil), Number: (*ValNumber)(nil), Boolean: (*ValBoolean)(nil)}), N("two nil embedded pointers, the second has String", TwoEmbedded{}),
 		N("embeds nil Stringer/Number/Boolean", EmbedsIfaces{}), N("*embeds nil Stringer/Number/Boolean", &EmbedsIfaces{}), N("embeds Stringer, nil Number/Boolean", EmbedsIfaces{Stringer: ValStringer{"es"}}),
 		N("embeds Number, nil Stringer", EmbedsIfaces{Number: ValNumber{2}}), N("embeds nil *Stringer-impl", EmbedsStringerPtr{Tag: "t"}), N("embeds *Stringer-impl", EmbedsStringerPtr{&ValStringer{"ep"}, "t"}),
 		// letters whose other case has another length in UTF-8, alone and followed by a little
@@ -208,6 +209,7 @@ func Containers() []Named {
 		N("nil *[]int", nilPtrSlice), N("nil *map", nilPtrMap), N("nil *Thing", nilPtrThing),
 		N("string", "hello"), N("int", 5), N("nil", nil), N("bool", true), N("func", func() int { return 1 }), N("chan", make(chan int)),
 		N("safe-slice", stick.NewSafeValue([]int{1, 2}, "html")),
+		N("embeds iface holding typed nil", EmbedsIfaces{Stringer: (*ValStringer)(nil), Number: (*ValNumber)(nil)}), N("*embeds iface holding typed nil", &EmbedsIfaces{Boolean: (*ValBoolean)(nil)}),
 		N("embeds nil ifaces", EmbedsIfaces{}), N("*embeds nil ifaces", &EmbedsIfaces{}), N("embeds Stringer only", EmbedsIfaces{Stringer: ValStringer{"es"}}), N("embeds nil *ValStringer", EmbedsStringerPtr{Tag: "t"}), N("embeds *ValStringer", EmbedsStringerPtr{&ValStringer{"ep"}, "t"}),
 		N("OuterVal", OuterVal{Inner{"in", 1}, 2}), N("*OuterVal", &OuterVal{Inner{"pin", 3}, 4}), N("OuterPtr", OuterPtr{&Inner{"ep", 5}, 6}), N("OuterPtr nil-embedded", OuterPtr{nil, 7}), N("*OuterPtr nil-embedded", &OuterPtr{nil, 8}),
 		N("OuterIface", func() OuterIface {
@@ -238,7 +240,7 @@ func Keys() []Named {
 		N("-0.5", -0.5), N("'-0.25'", "-0.25"), N("-0.999", -0.999), N("-1e-9", -1e-9), N("2.999", 2.999), N("'2.5'", "2.5"), N("0.999", 0.999), N("float32(-0.5)", float32(-0.5)),
 		N("0", 0), N("1", 1), N("2", 2), N("3", 3), N("-1", -1), N("100", 100), N("f1", 1.0), N("f1.5", 1.5), N("f2", 2.0), N("nan", math.NaN()), N("inf", math.Inf(1)), N("1e30", 1e30),
 		N("true", true), N("false", false), N("nil", nil), N("nilptr", nilPtr), N("uint8(200)", uint8(200)), N("int64(1)", int64(1)),
-		N("[]int", []int{1}), N("map", map[string]int{"a": 1}), N("stringer-k", ValStringer{"k"}), N("safe-a", stick.NewSafeValue("a", "html")), N("func", func() {}),
+		N("[]int", []int{1}), N("map", map[string]int{"a": 1}), N("stringer-k", ValStringer{"k"}), N("safe-a", stick.NewSafeValue("a", "html")), N("safe '1'", stick.NewSafeValue("1", "html")), N("safe 2", stick.NewSafeValue(2, "js")), N("safe 'k'", stick.NewSafeValue("k", "html")), N("func", func() {}),
 	}
 }
 
@@ -251,6 +253,8 @@ func ArgLists() [][]stick.Value {
 		{[]int{1, 2}}, {[]stick.Value{1}}, {1, "b"}, {int64(1), int8(2)}, {math.NaN()}, {func() {}},
 		// numbers that do not fit the parameter: negative for unsigned, too large, wrapping around
 		{-1}, {int64(-1)}, {300}, {uint64(1 << 63)}, {-129}, {int8(-1)}, {1e30}, {-0.0},
+		// unsigned values with the top bit set: no signed type of that size holds them
+		{uint8(200)}, {uint16(65535)}, {uint32(1 << 31)}, {uint64(math.MaxUint64)}, {uint(math.MaxUint64)}, {uint8(127)}, {uint8(128)}, {int8(-128)}, {int16(-1)}, {uint8(255), uint8(1)},
 	}
 }
 
@@ -331,6 +335,12 @@ type EmbedsIfaces struct {
 	stick.Stringer
 	stick.Number
 	stick.Boolean
+}
+
+// TwoEmbedded embeds two pointers: the first has no String method, the second has.
+type TwoEmbedded struct {
+	*Inner
+	*ValStringer
 }
 
 // EmbedsStringerPtr gets String() from an embedded pointer.
